@@ -11,7 +11,7 @@ state the correspondence of the result types: ok-with-buffer-and-return-value / 
 
 The programs write through `as_mut()`, which cannot change the length of the buffer; the functions of `Model/Aead.lean`
 take whatever list the primitive returns.  The two therefore agree exactly for primitives that work IN PLACE (output as
-long as the input: `AeadPrim.InPlace`, `BlockCipher.InPlace` — part of `Lawful` for the block cipher and for AEAD
+long as the input: `AeadInPlace`, `BlockInPlace` — part of `Lawful` for the block cipher and for AEAD
 encryption, an additional — true — assumption for AEAD decryption); `…_needs_inPlace` are witnesses that the hypothesis
 cannot be dropped (a primitive that is not length preserving: the program panics on the write through `as_mut()`, the
 function returns the longer list).  Core Lean only.
